@@ -105,7 +105,7 @@ pub proof fn lemma_esc_plain(s: Seq<u8>, n: int)
     let ghost b = lit.bytes();
 //@ loop 1 iter=it
         invariant
-            b == lit.bytes(), it.seq().len() == b.len(), b.len() + 12 <= usize::MAX,
+            b == lit.bytes(), it.seq().len() == b.len(), 2 * b.len() + 4096 <= usize::MAX,
             forall|j: int| 0 <= j < b.len() ==> (#[trigger] it.seq()[j]).0 == j && it.seq()[j].1 == b[j],
             output is None ==> (forall|j: int| 0 <= j < it.index@ ==> !special(#[trigger] b[j])),
             output matches Some(o) ==> o@ == esc(b.take(it.index@ as int)), //# C09.inv_output_is_the_escaping_of_the_bytes_read_so_far
@@ -124,7 +124,7 @@ pub proof fn lemma_esc_plain(s: Seq<u8>, n: int)
         if output is Some { axiom_utf8_decode_encode(output->0@); }
     }
 //@ spec
-    requires valid_utf8(lit.bytes()), lit.bytes().len() + 12 <= usize::MAX,
+    requires valid_utf8(lit.bytes()), 2 * lit.bytes().len() + 4096 <= usize::MAX,
     ensures
         r.bytes() == esc(lit.bytes()), //# C09.ldap_escape_is_the_rfc4515_escaping_for_every_string
         (forall|j: int| 0 <= j < lit.bytes().len() ==> !special(#[trigger] lit.bytes()[j])) ==> r == lit, //# C09.strings_that_need_no_escaping_are_returned_unchanged
@@ -165,7 +165,7 @@ pub proof fn lemma_dn_esc_plain(v: Seq<u8>, n: nat)
     let ghost b = val.bytes();
 //@ loop 1 iter=it
         invariant
-            b == val.bytes(), it.seq().len() == b.len(), b.len() + 12 <= usize::MAX,
+            b == val.bytes(), it.seq().len() == b.len(), 2 * b.len() + 4096 <= usize::MAX,
             forall|j: int| 0 <= j < b.len() ==> (#[trigger] it.seq()[j]).0 == j && it.seq()[j].1 == b[j],
             output is None ==> (forall|j: int| 0 <= j < it.index@ ==> !dn_special(b, j)),
             output matches Some(o) ==> o@ == dn_esc(b, it.index@ as nat), //# C09.inv_output_is_the_dn_escaping_of_the_bytes_read_so_far
@@ -183,7 +183,7 @@ pub proof fn lemma_dn_esc_plain(v: Seq<u8>, n: nat)
         if output is Some { axiom_utf8_decode_encode(output->0@); }
     }
 //@ spec
-    requires valid_utf8(val.bytes()), val.bytes().len() + 12 <= usize::MAX,
+    requires valid_utf8(val.bytes()), 2 * val.bytes().len() + 4096 <= usize::MAX,
     ensures
         r.bytes() == dn_esc(val.bytes(), val.bytes().len()), //# C09.dn_escape_is_the_rfc4514_hex_escaping_for_every_string
         (forall|j: int| 0 <= j < val.bytes().len() ==> !dn_special(val.bytes(), j)) ==> r == val, //# C09.values_that_need_no_escaping_are_returned_unchanged
@@ -240,7 +240,7 @@ pub proof fn lemma_wf_unf(b: Seq<u8>, st: Unescaper, acc: Seq<u8>)
     let ghost b = val.bytes();
 //@ loop 1 iter=it
         invariant
-            b == val.bytes(), it.seq().len() == b.len(), b.len() + 12 <= usize::MAX,
+            b == val.bytes(), it.seq().len() == b.len(), 2 * b.len() + 4096 <= usize::MAX,
             forall|j: int| 0 <= j < b.len() ==> (#[trigger] it.seq()[j]).0 == j && it.seq()[j].1 == b[j],
             esc == un(b.take(it.index@ as int)).0, wf_un(esc), //# C09.inv_state_is_the_automaton_run_over_the_bytes_read_so_far
             output is None ==> (esc is Value && un(b.take(it.index@ as int)).1 == b.take(it.index@ as int)),
@@ -257,7 +257,7 @@ pub proof fn lemma_wf_unf(b: Seq<u8>, st: Unescaper, acc: Seq<u8>)
         if output is Some && valid_utf8(output->0@) { axiom_utf8_decode_encode(output->0@); }
     }
 //@ spec
-    requires valid_utf8(val.bytes()), val.bytes().len() + 12 <= usize::MAX,
+    requires valid_utf8(val.bytes()), 2 * val.bytes().len() + 4096 <= usize::MAX,
     ensures
         match r {
             Ok(c) => un(val.bytes()).0 is Value && c.bytes() == un(val.bytes()).1,
